@@ -260,6 +260,85 @@ def run_requests(c, tier):
     c.part("helper_requests", resolved_entries=len(traces), entries_calling_helpers=len(interesting), controls=len(ctl))
 
 
+# declarations guarded by cpp_if (docs/input.rst "cpp_if"): the library and its wrappers must build with the
+# symbol defined and with it undefined
+CPPIF = {
+    "yaml": """
+library: sub
+cxx_header: sub.hpp
+options: {debug: true, wrap_python: false, wrap_lua: false}
+declarations:
+- decl: void over(int a)
+  cpp_if: ifdef HAVE_OPT
+- decl: void over(double a)
+- decl: void over(const std::string & a)
+  cpp_if: if defined(HAVE_OPT)
+- decl: int only_opt(int n)
+  cpp_if: ifdef HAVE_OPT
+- decl: class Shape
+  declarations:
+  - decl: Shape()
+  - decl: ~Shape()
+  - decl: void draw(int a)
+    cpp_if: ifdef HAVE_OPT
+  - decl: void draw(double b)
+  - decl: int sides() const
+    cpp_if: ifdef HAVE_OPT
+- decl: class Gated
+  cpp_if: ifdef HAVE_OPT
+  declarations:
+  - decl: Gated()
+  - decl: ~Gated()
+  - decl: bool open(bool how) const
+- decl: namespace inner
+  declarations:
+  - decl: double twice(double x)
+  - decl: double thrice(double x)
+    cpp_if: ifdef HAVE_OPT
+""",
+    "hpp": """
+#ifndef SUB_HPP
+#define SUB_HPP
+#include <string>
+#ifdef HAVE_OPT
+void over(int a);
+void over(const std::string &a);
+int only_opt(int n);
+#endif
+void over(double a);
+class Shape { public: Shape(); ~Shape(); void draw(double b); int v;
+#ifdef HAVE_OPT
+  void draw(int a); int sides() const;
+#endif
+};
+#ifdef HAVE_OPT
+class Gated { public: Gated(); ~Gated(); bool open(bool how) const; };
+#endif
+namespace inner { double twice(double x);
+#ifdef HAVE_OPT
+double thrice(double x);
+#endif
+}
+#endif
+""",
+    "cpp": """
+#include "sub.hpp"
+#ifdef HAVE_OPT
+void over(int a) { (void)a; }
+void over(const std::string &a) { (void)a; }
+int only_opt(int n) { return n; }
+void Shape::draw(int a) { v = a; }
+int Shape::sides() const { return v; }
+Gated::Gated() {} Gated::~Gated() {} bool Gated::open(bool how) const { return how; }
+namespace inner { double thrice(double x) { return 3 * x; } }
+#endif
+void over(double a) { (void)a; }
+Shape::Shape() : v(0) {} Shape::~Shape() {} void Shape::draw(double b) { v = (int)b; }
+namespace inner { double twice(double x) { return 2 * x; } }
+""",
+}
+
+
 # ---------------------------------------------------------------------------
 # part 3: descriptions from LibGen
 def classify(lib, stage, fn, txt):
@@ -327,6 +406,12 @@ def explore(c, tier):
     doc2 = json.loads(json.dumps(doc))
     doc2["funcs"] = [{"kind": "plain", "result": "cstr_raw", "params": ["str_cref"], "ndef": 0}]
     uniq.append(doc2)
+    for defs in ([], ["-DHAVE_OPT"]):
+        cl = libgen.wide_library()
+        cl["funcs"] = []
+        cl["custom"] = CPPIF
+        cl["defines"] = defs
+        uniq.append(cl)
     # one library per row with nothing else in it (a forgotten helper / include request is not masked)
     uniq += libgen.solo_libraries()
     if tier == "thorough":
@@ -356,7 +441,7 @@ def explore(c, tier):
     traces, tmeta = [], []
     cover = {}
     for lib, res in zip(uniq, results):
-        c.count(1, [json.dumps(lib, sort_keys=True)] if res["counts"].get("link") else [])
+        c.count(1, [json.dumps({k: v for k, v in lib.items() if k != "custom"}, sort_keys=True)] if res["counts"].get("link") else [])
         for k, v in res["counts"].items():
             cover[k] = cover.get(k, 0) + v
         for o, v in lib["opts"].items():
